@@ -4,9 +4,9 @@ use crate::content::{self, Op};
 use crate::entries;
 use crate::gen;
 use crate::out::{catch, emit};
-use jubako as jbk;
 use jbk::creator::{ContentPackCreator, PackRecipient};
 use jbk::reader::{MayMissPack, Range};
+use jubako as jbk;
 use serde::Deserialize;
 use serde_json::{json, Value as J};
 use std::sync::Arc;
@@ -73,16 +73,21 @@ pub fn run(s: &Scn) {
     std::fs::create_dir_all(&s.dir).unwrap();
     let r = catch(|| create(s));
     match r {
-        Ok(Ok(())) => emit(json!({"ev":"Finalize","ok":true,"file":format!("{}/{}", s.dir, s.out)})),
+        Ok(Ok(())) => {
+            emit(json!({"ev":"Finalize","ok":true,"file":format!("{}/{}", s.dir, s.out)}))
+        }
         Ok(Err(e)) => emit(json!({"ev":"Finalize","ok":false,"err":e})),
-        Err(p) => emit(json!({"ev":"Finalize","ok":false,"panic":p,"site":crate::out::last_panic_site()})),
+        Err(p) => {
+            emit(json!({"ev":"Finalize","ok":false,"panic":p,"site":crate::out::last_panic_site()}))
+        }
     }
     emit(json!({"ev":"End","scn":s.id}));
 }
 
 fn create(s: &Scn) -> Result<(), String> {
     let path = format!("{}/{}", s.dir, s.out);
-    let prog: Arc<dyn jbk::creator::Progress> = Arc::new(content::Prog::new(s.delay_seed, s.delay_max_us));
+    let prog: Arc<dyn jbk::creator::Progress> =
+        Arc::new(content::Prog::new(s.delay_seed, s.delay_max_us));
     let mut c = jbk::creator::BasicCreator::new(
         &path,
         content::concat_mode(&s.concat),
@@ -98,14 +103,17 @@ fn create(s: &Scn) -> Result<(), String> {
         let a = c
             .add_content(input, content::hint(&op.hint))
             .map_err(|e| format!("add {i}: {e}"))?;
-        emit(json!({"ev":"Add","packno":0,"i":i,"cid":op.cid,"size":op.size,"cls":op.cls,
-                    "pack":a.pack_id.into_u16(),"idx":a.content_id.into_u32()}));
+        emit(
+            json!({"ev":"Add","packno":0,"i":i,"cid":op.cid,"size":op.size,"cls":op.cls,
+                    "pack":a.pack_id.into_u16(),"idx":a.content_id.into_u32()}),
+        );
         addrs[0].push((a.pack_id.into_u16(), a.content_id.into_u32()));
     }
     let mut extra_creators: Vec<ContentPackCreator<dyn PackRecipient>> = vec![];
     for (j, ex) in s.extras.iter().enumerate() {
         let f: Box<dyn PackRecipient> =
-            jbk::creator::AtomicOutFile::new(format!("{}/{}", s.dir, ex.file)).map_err(|e| e.to_string())?;
+            jbk::creator::AtomicOutFile::new(format!("{}/{}", s.dir, ex.file))
+                .map_err(|e| e.to_string())?;
         let mut pc = ContentPackCreator::<dyn PackRecipient>::new_from_output(
             f,
             jbk::PackId::from(ex.pack_id),
@@ -121,8 +129,10 @@ fn create(s: &Scn) -> Result<(), String> {
             let a = pc
                 .add_content(input, content::hint(&op.hint))
                 .map_err(|e| format!("extra add: {e}"))?;
-            emit(json!({"ev":"Add","packno":j+1,"i":i,"cid":op.cid,"size":op.size,"cls":op.cls,
-                        "pack":a.pack_id.into_u16(),"idx":a.content_id.into_u32()}));
+            emit(
+                json!({"ev":"Add","packno":j+1,"i":i,"cid":op.cid,"size":op.size,"cls":op.cls,
+                        "pack":a.pack_id.into_u16(),"idx":a.content_id.into_u32()}),
+            );
             a_.push((a.pack_id.into_u16(), a.content_id.into_u32()));
         }
         addrs.push(a_);
@@ -198,7 +208,9 @@ fn apply_damage(orig: &[u8], d: &Damage) -> Vec<u8> {
             }
         }
         "replace" => {
-            v = (0..len).map(|k| (k as u8).wrapping_mul(101) ^ d.mask).collect();
+            v = (0..len)
+                .map(|k| (k as u8).wrapping_mul(101) ^ d.mask)
+                .collect();
         }
         k => panic!("unknown damage kind {k}"),
     }
@@ -223,12 +235,19 @@ pub fn dump_value(c: &jbk::reader::Container, s: &DumpScn) -> J {
             };
             let store = match index.get_store(c.get_entry_storage()) {
                 Ok(s) => s,
-                Err(e) => return Ok(json!({"name": name, "res": "err", "err": format!("store: {e}")})),
+                Err(e) => {
+                    return Ok(json!({"name": name, "res": "err", "err": format!("store: {e}")}))
+                }
             };
             let vnames = entries::variant_names(&store);
-            let builder = match jbk::reader::builder::AnyBuilder::new(store, c.get_value_storage().as_ref()) {
+            let builder = match jbk::reader::builder::AnyBuilder::new(
+                store,
+                c.get_value_storage().as_ref(),
+            ) {
                 Ok(b) => b,
-                Err(e) => return Ok(json!({"name": name, "res": "err", "err": format!("builder: {e}")})),
+                Err(e) => {
+                    return Ok(json!({"name": name, "res": "err", "err": format!("builder: {e}")}))
+                }
             };
             let n = index.count().into_u32();
             let mut es = vec![];
@@ -242,7 +261,9 @@ pub fn dump_value(c: &jbk::reader::Container, s: &DumpScn) -> J {
                     Err(err) => es.push(json!({"err": err.to_string()})),
                 }
             }
-            Ok(json!({"name": name, "res": "ok", "count": n, "offset": index.offset().into_u32(), "entries": es}))
+            Ok(
+                json!({"name": name, "res": "ok", "count": n, "offset": index.offset().into_u32(), "entries": es}),
+            )
         });
         idxs.push(match r {
             Ok(Ok(j)) => j,
@@ -259,9 +280,12 @@ pub fn dump_value(c: &jbk::reader::Container, s: &DumpScn) -> J {
                 Ok(Some(MayMissPack::FOUND(p))) => p,
                 Ok(Some(MayMissPack::MISSING(pi))) => {
                     // still ask for a content: the answer must be MISSING too
-                    let a = jbk::ContentAddress::new(jbk::PackId::from(*pid), jbk::ContentIdx::from(0));
+                    let a =
+                        jbk::ContentAddress::new(jbk::PackId::from(*pid), jbk::ContentIdx::from(0));
                     let via_bytes = match c.get_bytes(a) {
-                        Ok(Some(MayMissPack::MISSING(pi2))) => json!({"missing": pi2.uuid.to_string()}),
+                        Ok(Some(MayMissPack::MISSING(pi2))) => {
+                            json!({"missing": pi2.uuid.to_string()})
+                        }
                         Ok(Some(MayMissPack::FOUND(_))) => json!("found"),
                         Ok(None) => json!("nopack"),
                         Err(e) => json!({"err": e.to_string()}),
@@ -274,9 +298,14 @@ pub fn dump_value(c: &jbk::reader::Container, s: &DumpScn) -> J {
             };
             let n = pack.get_content_count().into_u32();
             let mut items = vec![];
-            let lim = if s.max_content > 0 { std::cmp::min(n, s.max_content) } else { n };
+            let lim = if s.max_content > 0 {
+                std::cmp::min(n, s.max_content)
+            } else {
+                n
+            };
             for idx in 0..lim {
-                let a = jbk::ContentAddress::new(jbk::PackId::from(*pid), jbk::ContentIdx::from(idx));
+                let a =
+                    jbk::ContentAddress::new(jbk::PackId::from(*pid), jbk::ContentIdx::from(idx));
                 items.push(match c.get_bytes(a) {
                     Ok(Some(MayMissPack::FOUND(Some(region)))) => match content::read_region(&region) {
                         Ok(d) => json!({"res": "ok", "size": d.len(), "b3": b3(&d), "declared": region.size().into_u64()}),
@@ -378,7 +407,9 @@ fn dump_inner(s: &DumpScn) {
             }
         }
         Ok(Err(e)) => emit(json!({"ev":"Dump","open":"err","err":e.to_string()})),
-        Err(p) => emit(json!({"ev":"Dump","open":"panic","panic":p,"site":crate::out::last_panic_site()})),
+        Err(p) => {
+            emit(json!({"ev":"Dump","open":"panic","panic":p,"site":crate::out::last_panic_site()}))
+        }
     }
 }
 
@@ -405,9 +436,14 @@ fn concurrent_read(s: &DumpScn) {
                     for k in 0..*n {
                         // every thread visits the contents in the same order: they meet on the same clusters
                         let idx = (k + (t as u32 % 2)) % n;
-                        let a = jbk::ContentAddress::new(jbk::PackId::from(*pid), jbk::ContentIdx::from(idx));
+                        let a = jbk::ContentAddress::new(
+                            jbk::PackId::from(*pid),
+                            jbk::ContentIdx::from(idx),
+                        );
                         let r = catch(|| match c.get_bytes(a) {
-                            Ok(Some(MayMissPack::FOUND(Some(region)))) => content::read_region(&region).is_ok(),
+                            Ok(Some(MayMissPack::FOUND(Some(region)))) => {
+                                content::read_region(&region).is_ok()
+                            }
                             _ => false,
                         });
                         let mut g = results.lock().unwrap();
@@ -440,6 +476,108 @@ pub struct ToolScn {
     pub uuid: String,
     #[serde(default)]
     pub loc: String,
+    /// make_manifest: synthetic pack descriptions (the packs themselves need not exist)
+    #[serde(default)]
+    pub packs: Vec<SynthPack>,
+    #[serde(default)]
+    pub in_container: bool,
+}
+
+#[derive(Deserialize, Clone)]
+pub struct SynthPack {
+    pub uuid: String,
+    pub pack_id: u16,
+    pub free_len: usize,
+    pub free_seed: u32,
+    pub loc: String,
+}
+
+/// A manifest written with ManifestPackCreator over one real (tiny) directory pack and any number
+/// of synthetic content-pack descriptions with free data of any length: manifests whose pack-info
+/// table starts far from the beginning, which BasicCreator never produces.
+fn make_manifest(s: &ToolScn) -> Result<J, String> {
+    use std::io::{Seek, Write};
+    let dir = std::path::Path::new(&s.out)
+        .parent()
+        .ok_or("no parent")?
+        .to_path_buf();
+    let open = |p: &std::path::Path| {
+        std::fs::OpenOptions::new()
+            .read(true)
+            .write(true)
+            .create(true)
+            .truncate(true)
+            .open(p)
+            .map_err(|e| e.to_string())
+    };
+    // model content pack (gives a valid check info / kind / size)
+    let cpath = camino::Utf8PathBuf::from_path_buf(dir.join("model.jbkc")).map_err(|_| "utf8")?;
+    let mut cc = jbk::creator::ContentPackCreator::new(
+        &cpath,
+        jbk::PackId::from(1),
+        jbk::VendorId::from([1, 0, 0, 0]),
+        Default::default(),
+        jbk::creator::Compression::None,
+    )
+    .map_err(|e| e.to_string())?;
+    cc.add_content(
+        Box::new(std::io::Cursor::new(b"model".to_vec())),
+        Default::default(),
+    )
+    .map_err(|e| e.to_string())?;
+    let (_f, model) = cc.finalize().map_err(|e| e.to_string())?;
+    let dc = jbk::creator::DirectoryPackCreator::new(
+        jbk::PackId::from(0),
+        jbk::VendorId::from([1, 0, 0, 0]),
+        Default::default(),
+    );
+    let dpath = dir.join("directory.jbkd");
+    let mut dfile = open(&dpath)?;
+    let ddata = dc
+        .finalize()
+        .map_err(|e| e.to_string())?
+        .write(&mut dfile)
+        .map_err(|e| e.to_string())?;
+    let duuid = ddata.uuid;
+    let mut mc = jbk::creator::ManifestPackCreator::new(
+        jbk::VendorId::from([1, 0, 0, 0]),
+        Default::default(),
+    );
+    mc.add_pack(ddata, "directory.jbkd");
+    for p in &s.packs {
+        let pd = jbk::creator::PackData {
+            uuid: uuid::Uuid::parse_str(&p.uuid).map_err(|e| e.to_string())?,
+            pack_size: model.pack_size,
+            pack_kind: model.pack_kind,
+            pack_id: jbk::PackId::from(p.pack_id),
+            free_data: gen::content(p.free_seed, p.free_len as u64, "rand"),
+            check_info: model.check_info,
+        };
+        mc.add_pack(pd, p.loc.as_str());
+    }
+    let mpath = if s.in_container {
+        dir.join("manifest.tmp")
+    } else {
+        std::path::PathBuf::from(&s.out)
+    };
+    let mut mfile = open(&mpath)?;
+    let muuid = mc.finalize(&mut mfile).map_err(|e| e.to_string())?;
+    mfile.flush().map_err(|e| e.to_string())?;
+    if s.in_container {
+        let out = camino::Utf8PathBuf::from(&s.out);
+        let mut cont = jbk::creator::ContainerPackCreator::new(&out, Default::default())
+            .map_err(|e| e.to_string())?;
+        dfile.rewind().map_err(|e| e.to_string())?;
+        cont.add_pack(duuid, &mut dfile)
+            .map_err(|e| e.to_string())?;
+        mfile.rewind().map_err(|e| e.to_string())?;
+        cont.add_pack(muuid, &mut mfile)
+            .map_err(|e| e.to_string())?;
+        cont.finalize().map_err(|e| e.to_string())?;
+        let _ = std::fs::remove_file(&mpath);
+    }
+    let _ = std::fs::remove_file(cpath);
+    Ok(json!({"manifest": muuid.to_string(), "directory": duuid.to_string()}))
 }
 
 pub fn manifest_view(file: &str) -> Result<J, String> {
@@ -473,20 +611,26 @@ pub fn tool(s: &ToolScn) {
             }
             "set_location" => {
                 let u = uuid::Uuid::parse_str(&s.uuid).map_err(|e| e.to_string())?;
-                let r = jbk::tools::set_location(&s.file, u, s.loc.as_str().into()).map_err(|e| e.to_string())?;
+                let r = jbk::tools::set_location(&s.file, u, s.loc.as_str().into())
+                    .map_err(|e| e.to_string())?;
                 Ok(match r {
-                    Some((kind, old)) => json!({"found": true, "kind": format!("{kind:?}"), "old": old.as_str()}),
+                    Some((kind, old)) => {
+                        json!({"found": true, "kind": format!("{kind:?}"), "old": old.as_str()})
+                    }
                     None => json!({"found": false}),
                 })
             }
             "manifest" => manifest_view(&s.file),
+            "make_manifest" => make_manifest(s),
             o => Err(format!("unknown tool op {o}")),
         }
     });
     match r {
         Ok(Ok(j)) => emit(json!({"ev":"Tool","op":s.op,"res":"ok","out":j})),
         Ok(Err(e)) => emit(json!({"ev":"Tool","op":s.op,"res":"err","err":e})),
-        Err(p) => emit(json!({"ev":"Tool","op":s.op,"res":"panic","panic":p,"site":crate::out::last_panic_site()})),
+        Err(p) => emit(
+            json!({"ev":"Tool","op":s.op,"res":"panic","panic":p,"site":crate::out::last_panic_site()}),
+        ),
     }
     emit(json!({"ev":"End","scn":s.id}));
 }
